@@ -1,0 +1,13 @@
+//go:build verif
+
+package yamlutils
+
+// Contracts for the govc verifier (/verif). Comment-only; excluded from every
+// normal build by the tag above.
+
+//@ func FixMapKeys
+//@   props C12 C13
+//@   maprange 0: keyed-write
+//@ func fixMapKeysIn
+//@   props C12 C13
+//@   maprange 0: keyed-write
